@@ -58,6 +58,7 @@ type PCase struct {
 	Fp     string      `json:"fp"`
 	Fps    []string    `json:"fps"`
 	FpDjb  string      `json:"fp_djb"`
+	FpsDjb []string    `json:"fps_djb"`
 	Doc    string      `json:"doc"`
 	Err    string      `json:"err,omitempty"`
 	Panic  string      `json:"panic,omitempty"`
@@ -301,6 +302,13 @@ func genProto(r *rand.Rand, id int) (PCase, []pbody) {
 			return l
 		}
 		res, scope, rec := gen(r.Intn(3), 0), gen(r.Intn(2), 1), gen(r.Intn(3), 0)
+		// attributes that override each other: a record / scope attribute with the key of a resource attribute
+		if len(res) > 0 && r.Intn(2) == 0 {
+			rec = append(rec, [2]string{res[r.Intn(len(res))][0], "rec-wins"})
+		}
+		if len(res) > 0 && r.Intn(3) == 0 {
+			scope = append(scope, [2]string{res[r.Intn(len(res))][0], "scope-wins"})
+		}
 		sev := []string{"", "WARN", "info"}[r.Intn(3)]
 		c.Wire = Wire{Kind: "otlp", Res: hexPairs2(res), Scope: hexPairs2(scope), Rec: hexPairs2(rec), Sev: hexs(sev)}
 		mk := func() pbody {
@@ -365,6 +373,16 @@ func observeProto(c *PCase, bodies []pbody) {
 		old := config.Cloki.Setting.FingerPrintType
 		config.Cloki.Setting.FingerPrintType = clc_writer.FINGERPRINT_Bernstein
 		f, _, err := runP(bodies[0])
+		if err == nil {
+			for _, b := range bodies[1:] {
+				g, _, e := runP(b)
+				if e != nil {
+					err = e
+					break
+				}
+				c.FpsDjb = append(c.FpsDjb, strconv.FormatUint(g, 10))
+			}
+		}
 		config.Cloki.Setting.FingerPrintType = old
 		if err != nil {
 			c.Err = "bernstein: " + err.Error()
